@@ -59,7 +59,7 @@ def run(tier, scratch, t0, replay=None):
 
     batches = D.build_batches(scratch, sorted(K.available_interps()), tier, "C18", n_stdlib=0, n_gen=1 if quick else 6, batch=40,
                               with_corpus=False, gen_snippets=2,
-                              must_templates=["t_control", "t_async", "t_comp", "t_long_loop"])
+                              must_templates=["t_control", "t_async", "t_comp", "t_long_loop", "t_ints"])
     for b in batches:
         tf, err = K.run_truth(b["v"], "compile", {"items": b["items"], "sections": [], "mode": "compile"}, b["workdir"], b["tag"])
         if tf is None:
@@ -116,6 +116,44 @@ def run(tier, scratch, t0, replay=None):
             PY2_FILES.extend(it["pyc"] for it in b["items"] if os.path.exists(it["pyc"]) and os.path.getsize(it["pyc"]) < 12000)
     n = 480 if quick else 20000
     hists = list(neighbour_hists)
+    # whatever the seed: the PyPy flavour of a version asked first, then the CPython flavour of the same version (and back),
+    # through each lookup entry point
+    for v in [(2, 7), (3, 6), (3, 7), (3, 8), (3, 9), (3, 10)]:
+        for kind in ("get_opcode_module", "make_std_api"):
+            py = {"op": kind, "version": list(v), "variant": "pypy"}
+            cp = {"op": kind, "version": list(v)}
+            hists.append({"ops": [py], "probe": cp})
+            hists.append({"ops": [cp], "probe": py})
+        hists.append({"ops": [{"op": "get_opcode", "version": list(v), "pypy": True}], "probe": {"op": "get_opcode", "version": list(v), "pypy": False}})
+        if v in by_v:
+            hists.append({"ops": [{"op": "get_opcode_module", "version": list(v), "variant": "pypy"}],
+                          "probe": {"op": "bytecode", "file": by_v[v]}})
+    # ... a Python 2 file with ints beyond the decimal-conversion limit listed before a Python 3 file with such ints
+    big = {}
+    for b in batches:
+        for it in b["items"]:
+            if os.path.exists(it["pyc"]) and "t_ints" in it["pyc"]:
+                big.setdefault(b["v"], it["pyc"])
+    for v2 in sorted(big):
+        for v1 in sorted(big):
+            if v1 != v2 and (v1 < (3, 0)) != (v2 < (3, 0)):
+                hists.append({"ops": [{"op": "disassemble_file", "file": big[v1], "fmt": "classic"}],
+                              "probe": {"op": "disassemble_file", "file": big[v2], "fmt": "classic"}})
+    # ... and *source* files given to disassemble_file (compiled by the host on the fly): two different files with the same
+    # base name in two directories, one after the other
+    sdir = scratch.sub("src")
+    srcs = []
+    for i, body in enumerate(("x = 1\nprint(x + 41)\n", "def f(a):\n    return [a, 'second']\nprint(f(2))\n")):
+        d = os.path.join(sdir, "d%d" % i)
+        os.makedirs(d, exist_ok=True)
+        with open(os.path.join(d, "mod.py"), "w") as f:
+            f.write(body)
+        srcs.append(os.path.join(d, "mod.py"))
+    for a, b2 in ((0, 1), (1, 0)):
+        hists.append({"ops": [{"op": "disassemble_file", "file": srcs[a], "fmt": "classic"}],
+                      "probe": {"op": "disassemble_file", "file": srcs[b2], "fmt": "classic"}})
+        hists.append({"ops": [{"op": "disassemble_file", "file": srcs[a], "fmt": "bytes"}, {"op": "disassemble_file", "file": srcs[a], "fmt": "classic"}],
+                      "probe": {"op": "disassemble_file", "file": srcs[b2], "fmt": "extended"}})
     # whatever the seed: listings of two files whose constant tuples are equal but not the same constants, in both orders and
     # across versions (state keyed by equality would show one file's constants in the other's listing)
     eq = {}
